@@ -235,9 +235,16 @@ def run_shards(ctx, modname, funcname, payloads, disjoint=False, procs=None):
     if procs <= 1:
         results = [_worker(a) for a in args]
     else:
+        # a worker that dies (killed for memory, a crash in a C extension) must end the run as a harness error, not hang
+        # it: multiprocessing.Pool silently replaces the worker and waits for ever for the lost result
+        from concurrent.futures import ProcessPoolExecutor
+        from concurrent.futures.process import BrokenProcessPool
         mp = multiprocessing.get_context('fork')
-        with mp.Pool(procs) as pool:
-            results = pool.map(_worker, args, chunksize=1)
+        try:
+            with ProcessPoolExecutor(max_workers=procs, mp_context=mp) as pool:
+                results = list(pool.map(_worker, args, chunksize=1))
+        except BrokenProcessPool:
+            raise HarnessError('a worker process died (killed? out of memory?) - no verdict')
     for status, part in results:
         if status != 'ok':
             raise HarnessError('worker failed:\n' + part)
